@@ -47,7 +47,7 @@ def handleC19 (c : Case) : Verdict :=
         | "symlink" => .symlink mt
         | "dangling" => .symlink mt
         | _ => .missing
-      let cfg : Cfg := ⟨tokBool op 2, tokBool op 3, prealloc, sparseTruncFirstOfSource⟩
+      let cfg : Cfg := ⟨tokBool op 2, tokBool op 3, prealloc, sparseTruncFirstOfSource, hardlinkDropsStateOfSource⟩
       let lbl := ((c.find "lbl").map (·.getD 1 "-")).getD "-"
       let labels := (lbl.splitOn ",").filter (· != "-")
       if rr.getD 1 "" == "hang" then .specfalse "C19:restore-hangs" lbl else
@@ -63,6 +63,7 @@ def handleC19 (c : Case) : Verdict :=
         else if !specRestore ow pre node implFinal then
           some (if !shouldOverwrite ow node pre then "C19:skip-mode:existing-item-modified"
                 else if preUnreadable && cfg.sparse then "C19:sparse:unreadable-existing-file-keeps-old-bytes"
+                else if decide (pre.links > 1) then "C19:hardlinked-existing-file:matching-blobs-lost"
                 else "C19:content-differs:" ++ (labels.find? (·.startsWith "pre-")).getD "pre-?")
         else if !sideOK then some "C19:other-link-or-link-target-modified"
         else none
